@@ -13,13 +13,14 @@ EXTENDS TLC, Naturals, FiniteSets, Sequences, SequencesExt, Json, IOUtils
 CONSTANT DumpCases
 R == INSTANCE Req
 
-Modes == {"fn", "mod", "trait-self", "di-static", "trait-ref-at", "di-dyn-at", "trait-self-at", "di-static-at"}
+\* "fn-concrete": a function with a concrete dependency - its trait goes through a NESTED trait-mode invocation
+Modes == {"fn", "fn-concrete", "mod", "trait-self", "di-static", "trait-ref-at", "di-dyn-at", "trait-self-at", "di-static-at"}
 Rets == {"unit", "owned", "borrow-deps", "borrow-arg", "generic"}
 AsyncTrait(m) == m \in {"trait-ref-at", "di-dyn-at", "trait-self-at", "di-static-at"}
 Inputs == { i \in [mode : Modes, ret : Rets, nosend : BOOLEAN] :
             /\ (AsyncTrait(i.mode) => ~i.nosend /\ i.ret \in {"unit", "owned", "borrow-arg"})
-            /\ (i.ret = "borrow-deps" => i.mode \in {"fn", "mod"})
-            /\ (i.ret = "generic" => i.mode \in {"fn", "mod", "trait-self"}) }
+            /\ (i.ret = "borrow-deps" => i.mode \in {"fn", "fn-concrete", "mod"})
+            /\ (i.ret = "generic" => i.mode \in {"fn", "fn-concrete", "mod", "trait-self"}) }
 RetText(r) == CASE r = "unit" -> "()" [] r = "owned" -> "String" [] r = "borrow-deps" -> "&'astr" [] r = "borrow-arg" -> "&'astr" [] r = "generic" -> "G"
 
 VARIABLES i, sig, pc
